@@ -41,6 +41,11 @@ def cell(draw, kinds=None, exact=False, lmin=0.8, lmax=20.0):
         L, A = [a, a, a], [90.0, 90.0, 90.0]
     elif kind == "ortho":
         L, A = _fix_lengths([logl(), logl(), logl()]), [90.0, 90.0, 90.0]
+    elif kind == "near-ortho":
+        # almost rectangular: every angle 0.002 - 0.01 degrees off 90 (above the 9e-4 degrees within which mdtraj itself
+        # documents / implements "orthorhombic"), i.e. off-diagonal vector components of 1e-4 ... 3e-3 nm
+        dev = [draw(st.sampled_from([-1, 1])) * flt(0.002, 0.01) for _ in range(3)]
+        L, A = _fix_lengths([logl(), logl(), logl()]), [90.0 + d for d in dev]
     elif kind == "mono":
         L, A = _fix_lengths([logl(), logl(), logl()]), [90.0, flt(50, 130), 90.0]
     elif kind == "hex":
@@ -106,6 +111,9 @@ def widths(H):
                      V / np.linalg.norm(np.cross(a, b))])
 
 
+KINDS_GEOMETRY = ["cubic", "ortho", "mono", "hex", "troct", "rhdo", "tric", "tric", "near-ortho"]
+
+
 def is_ortho(c):
     return all(abs(a - 90.0) < 1e-6 for a in c["A"])
 
@@ -140,6 +148,14 @@ def expand_coords(p, n_frames, Hs, exact=False):
             fr = [0.3, 0.49, 0.6][int(rng.integers(0, 3))]
             edge = np.linalg.norm(H, axis=1) * fr
             out[f] = rng.uniform(0, 1, (n, 3)) * edge + rng.uniform(-1, 1, 3) @ H * int(rng.integers(0, 2))
+            continue
+        elif cls == "flat":
+            # a sheet or a line: all atoms share exactly the same coordinate along one or two axes (zero extent)
+            xyz = rng.uniform(0, 1, (n, 3)) @ H
+            axes = [[2], [1], [1, 2], [0], [0, 1]][int(rng.integers(0, 5))]
+            for ax in axes:
+                xyz[:, ax] = float(np.float32(xyz[0, ax]))
+            out[f] = xyz
             continue
         elif cls == "mixed":
             # most atoms inside the primary cell, the others moved out of it by lattice vectors (unwrapped molecules)
